@@ -283,7 +283,9 @@ class DiffusionCurve:
         :return - List of separation factors
         """
         permeate_composition = self.permeate_composition
-        feed_composition = self.feed_compositions
+        feed_composition = [
+            c.to_weight(self.mixture) for c in self.feed_compositions
+        ]
         return [
             (permeate_composition[i].first / permeate_composition[i].second)
             / (feed_composition[i].first / feed_composition[i].second)
